@@ -123,10 +123,23 @@ func corruptFasta(t *rapid.T, recs []FaRec, kind string) (content string, where 
 		if len(rs) < 2 {
 			return "", "", false
 		}
-		if rapid.Bool().Draw(t, "longer") || len(rs[i].Seq) < 2 {
+		// by how much the row is off: one symbol either way, many symbols, half the row, or the whole row (a bare header:
+		// what a file truncated just after a header line looks like)
+		n := len(rs[i].Seq)
+		switch how := rapid.IntRange(0, 5).Draw(t, "unequalHow"); {
+		case how == 0 || n < 2:
 			rs[i].Seq += "A"
-		} else {
-			rs[i].Seq = rs[i].Seq[:len(rs[i].Seq)-1]
+		case how == 1:
+			rs[i].Seq = rs[i].Seq[:n-1]
+		case how == 2:
+			rs[i].Seq += strings.Repeat("ACGT", 1+rapid.IntRange(0, 20).Draw(t, "unequalExtra"))
+		case how == 3:
+			rs[i].Seq = rs[i].Seq[:n/2]
+		case how == 4:
+			rs[i].Seq = ""
+			lab += "-empty"
+		default:
+			rs[i].Seq = rs[i].Seq[:rapid.IntRange(1, n-1).Draw(t, "unequalKeep")]
 		}
 	case "non-iupac":
 		b := []byte(rs[i].Seq)
@@ -327,8 +340,17 @@ func genC18(t *rapid.T) c18Case {
 		}})
 		if isRefFile && kind != "topranking" || isRefFile && len(b.recs) > 1 {
 			cands = append(cands, cand{"reference-two-records", func() (string, bool) {
-				files[i].Content = fa(recs[0], FaRec{ID: "second", Seq: recs[0].Seq})
-				return secondary(i) + role + ":last", true
+				second := FaRec{ID: "second", Seq: recs[0].Seq}
+				lab := ":last"
+				switch rapid.IntRange(0, 3).Draw(t, "secondRefRecord") {
+				case 0: // a second record that is only a header
+					second.Seq = ""
+					lab = ":last-empty"
+				case 1:
+					second.Seq = second.Seq[:len(second.Seq)/2]
+				}
+				files[i].Content = fa(recs[0], second)
+				return secondary(i) + role + lab, true
 			}})
 		}
 		// width mismatch between the two FASTA inputs of a command
